@@ -19,6 +19,7 @@ mod order;
 mod poly;
 mod sdd;
 mod table;
+mod unitprop;
 mod vtree;
 
 pub type CaseResult = Result<(), String>;
@@ -38,6 +39,7 @@ pub fn run_case(c: &Value) -> CaseResult {
         "vtree_mgr" => vtree::run(c),
         "hasher_hist" | "hasher_all" => hasher::run(c),
         "sdd_prog" => sdd::run(c),
+        "unitprop" => unitprop::run(c),
         "lat_eu" | "lat_real" | "lat_bool" | "lat_rational" | "lat_complex" => lattice::run(c),
         "compile_expr" | "compile_cnf" | "compile_sdd" | "compile_wide" => compile::run(c),
         _ => Err(format!("unknown case kind {kind}")),
@@ -95,6 +97,7 @@ fn main() {
                 "vtree" => vtree::candidates(seed),
                 "hasher" => hasher::candidates(seed),
                 "sdd" => sdd::candidates(seed),
+                "unitprop" => unitprop::candidates(seed),
                 "lattice" => lattice::candidates(seed),
                 "compile" => compile::candidates(seed),
                 _ => vec![],
